@@ -65,6 +65,9 @@ func checkTruncateGuards(w *World, r *Report, rule string, s *Sink) {
 func (w *World) sizeWritesInReach(fn *ssa.Function) []SizeWrite {
 	var out []SizeWrite
 	for f := range w.G.ReachFrom(fn).Set {
+		if _, isSetter := w.sizeSetters()[f]; isSetter {
+			continue // a setter wrapper's own store is judged at its call sites
+		}
 		if w.InLib(f) {
 			out = append(out, w.sizeWritesIn(f)...)
 		}
